@@ -66,4 +66,63 @@ def seatedRequests : List Request → List Verdict → List Request
   | r :: rs, v :: vs => if v = .seated then r :: seatedRequests rs vs else seatedRequests rs vs
   | _, _ => []
 
+/-! ## the connection thread and the accept loop as the code writes them  (C20, tie to the real threads)
+
+`connectR` is `PlayerThread._connect` up to the moment the thread signals its verdict: it receives the request TEXT,
+parses it (`parse_connection_info`), applies the three tests against the seat table, answers, and — when seated — waits
+for "<Seat> ready for teams" (`_check_message`) before it signals.  What follows for a seated thread is the seating
+barrier and `Model/SeatThread.lean`.  `acceptLoopR` is the loop of `Server.run`. -/
+namespace Admission
+
+/-- operations of a connection thread during admission, as the scheduler observes them -/
+inductive Op
+  | recv                       -- `receive_message()`
+  | send (t : List Char)       -- `send_message(t)`
+  | close                      -- `connection.close()`
+  | signal                     -- `event_thread.set()`
+  deriving DecidableEq, Repr
+
+/-- `_handle_error(message)` then `event_thread.set()` -/
+def reject (msg : List Char) : List Op := [.send msg, .close, .signal]
+
+/-- `PlayerThread._connect` until the verdict is signalled: (operations, table afterwards, seated?) ;
+`none` = the request does not parse (the thread dies with an exception before signalling) -/
+def connectR (t : Table) (requestText readyText : List Char) : Option (List Op × Table × Bool) :=
+  match parseConnect? requestText with
+  | none => none
+  | some (team, seat, version) =>
+    let r : Request := ⟨team, seat, version⟩
+    match admitReq t r with
+    | (t', Verdict.seated) =>
+      -- seated: the reply, then "<Seat> ready for teams" is awaited and checked
+      if checkMessage (seat.formal ++ " ready for teams".toList) readyText then
+        some ([.recv, .send (replyText r t .seated), .recv, .signal], t', true)
+      else
+        -- the seat stays written (the code does not undo it): the table keeps the entry although the thread gives up
+        some ([.recv, .send (replyText r t .seated), .recv] ++ reject "ERROR: Unexpected message received.".toList, t', false)
+    | (_, v) => some (.recv :: reject (replyText r t v), t, false)
+
+/-- what the main thread does per accepted connection: accept, start the thread, wait for its verdict, sleep, look
+whether it is alive, clear the event -/
+inductive MainOp | accept | start | waitVerdict | sleep | isAlive | clearVerdict
+  deriving DecidableEq, Repr
+
+def acceptRound : List MainOp := [.accept, .start, .waitVerdict, .sleep, .isAlive, .clearVerdict]
+
+/-- the accept loop over the connection attempts in accept order: (request text, what that client sends next);
+returns the per-connection thread operations, main's operations, the final table -/
+def acceptLoopR : Table → List (List Char × List Char) → Option (List (List Op) × List MainOp × Table)
+  | t, [] => some ([], [], t)
+  | t, (req, ready) :: rest =>
+    if Table.full t then some ([], [], t)
+    else
+      match connectR t req ready with
+      | none => none
+      | some (ops, t', _) =>
+        match acceptLoopR t' rest with
+        | none => none
+        | some (opss, mops, tf) => some (ops :: opss, acceptRound ++ mops, tf)
+
+end Admission
+
 end Bridge
